@@ -812,24 +812,26 @@ def gen_attr_op(rng, objs, children_of):
                     break
                 op = gen_op(rng, kinds, p_bad=0.0, children_of=children_of, p_copy=0.0)
         return op
-    if r < 0.36:
+    if r < 0.34:
         return {"op": "amove", "x": x, "inp": gen_pathin_vec(rng), "start": start, "pop": populated}
-    if r < 0.50:
+    if r < 0.47:
         rot = ["s", rng.randrange(24)] if rng.random() < 0.5 else ["v", [rng.randrange(24) for _ in range(rng.choice([1, 2, 3]))]]
         a = rng.random()
         anchor = None if a < 0.4 else (0 if a < 0.5 else gen_pathin_vec(rng))
         return {"op": "arot", "x": x, "rot": rot, "anchor": anchor, "start": start, "pop": populated}
-    if r < 0.57:
+    if r < 0.53:
         return {"op": "asetpos", "x": x, "val": [_ivec(rng) for _ in range(rng.choice([1, 1, 2, 3]))], "pop": populated}
-    if r < 0.63 and CLS_ARRS[cls]:
+    if r < 0.59:
+        return {"op": "asetori", "x": x, "val": gen_ori_value(rng), "pop": populated}
+    if r < 0.64 and CLS_ARRS[cls]:
         c = rng.choice(CLS_ARRS[cls])
         return {"op": "asetarr", "x": x, "slot": c, "val": gen_arr_value(rng, c)}
-    if r < 0.67 and CLS_SCAL[cls]:
+    if r < 0.68 and CLS_SCAL[cls]:
         k = rng.choice(CLS_SCAL[cls])
         return {"op": "asetscal", "x": x, "k": k, "val": gen_scal_value(rng, k)}
     if r < 0.72:
         return {"op": "alabel", "x": x, "val": gen_name(rng)}
-    if r < 0.77:
+    if r < 0.76:
         k = rng.choice([0, 1])
         return {"op": "aprop", "x": x, "k": k, "val": rng.randint(0, 1) if k == 0 else rng.randrange(len(PALETTE))}
     if n >= MAX_OBJS:
@@ -840,6 +842,8 @@ def gen_attr_op(rng, objs, children_of):
     kw = []
     if rng.random() < 0.3:
         kw.append(["pos", [_ivec(rng) for _ in range(rng.choice([1, 1, 2, 3]))]])
+    if rng.random() < 0.3:
+        kw.append(["ori", gen_ori_value(rng)])
     for c in CLS_ARRS[ocls]:
         if rng.random() < 0.35:
             kw.append(["arr", c, gen_arr_value(rng, c)])
@@ -851,8 +855,50 @@ def gen_attr_op(rng, objs, children_of):
     for k in (0, 1):
         if rng.random() < 0.2:
             kw.append(["sprop", k, rng.randint(0, 1) if k == 0 else rng.randrange(len(PALETTE))])
+    if rng.random() < 0.16:
+        # parent=None, parent=<a collection> (the copy is ADDED to it), rarely something that is no Collection (refused)
+        q = rng.random()
+        kw.append(["parent", -1 if q < 0.2 else (rng.choice(colls) if q < 0.9 else rng.randrange(n))])
+    if ocls == 5 and rng.random() < 0.22:
+        # children=<list of existing objects>: by preference the ORIGINAL's own children (they move to the copy), or any objects;
+        # rarely with an entry that is refused (no object / twice), which makes copy() raise part-way
+        q = rng.random()
+        ids = list(children_of.get(o, [])) if q < 0.4 else [rng.randrange(n) for _ in range(rng.choice([0, 1, 2, 3]))]
+        if rng.random() < 0.15:
+            ids.insert(rng.randrange(len(ids) + 1), JUNK_BASE + rng.randrange(4) if rng.random() < 0.6 or not ids else rng.choice(ids))
+        kw.append(["children", ids])
+    if rng.random() < 0.10:
+        # a value the setter rejects: copy() raises part-way through the keyword list
+        free = [a for a in ("position", "orientation") if not any(x[0] == a[:3] for x in kw)] + [ARR_ATTR[c] for c in CLS_ARRS[ocls] if not any(x[0] == "arr" and x[1] == c for x in kw)]
+        if free:
+            kw.append(["bad", rng.choice(free)])
     rng.shuffle(kw)
     return {"op": "acopy", "o": o, "kw": kw}
+
+
+def gen_ori_value(rng):
+    """None (unit rotation), a single rotation, or a path of 1-3 rotations (indices into the octahedral group)"""
+    q = rng.random()
+    if q < 0.35:
+        return None
+    if q < 0.6:
+        return ["s", rng.randrange(24)]
+    return ["v", [rng.randrange(24) for _ in range(rng.choice([1, 2, 2, 3]))]]
+
+
+def enc_ori(v):
+    from vlib.octa import OCTA, fmt_mat
+    if v is None:
+        return "n"
+    ms = [v[1]] if v[0] == "s" else v[1]
+    return f"v {len(ms)} " + " ".join(fmt_mat(OCTA[i]) for i in ms)
+
+
+def ori_real(v):
+    from vlib.octa import OCTA, rot_from
+    if v is None:
+        return None
+    return rot_from(OCTA[v[1]]) if v[0] == "s" else rot_from([OCTA[i] for i in v[1]])
 
 
 def enc_ov(ov):
@@ -864,6 +910,14 @@ def enc_ov(ov):
         return f"scal {ov[1]} {ov[2]}"
     if ov[0] == "label":
         return "label " + enc(ov[1])
+    if ov[0] == "ori":
+        return "ori " + enc_ori(ov[1])
+    if ov[0] == "parent":
+        return f"parent {ov[1]}"
+    if ov[0] == "children":
+        return f"children {len(ov[1])}" + "".join(f" {i}" for i in ov[1])
+    if ov[0] == "bad":
+        return "badval"
     return f"sprop {ov[1]} {ov[2]}"
 
 
@@ -884,6 +938,8 @@ def attr_model_lines(h):
             lines.append(f"forest arot {op['x']} {enc_pathin_rot(op['rot'])} {ea} {enc_start(op['start'])}")
         elif k == "asetpos":
             lines.append(f"forest asetpos {op['x']} {enc_vecs(op['val'])}")
+        elif k == "asetori":
+            lines.append(f"forest asetori {op['x']} {enc_ori(op['val'])}")
         elif k == "asetarr":
             lines.append(f"forest asetarr {op['x']} {op['slot']} {enc_ints(op['val'])}")
         elif k == "asetscal":
@@ -902,12 +958,20 @@ def attr_model_lines(h):
     return lines
 
 
-def copy_kwargs_real(kw):
+def copy_kwargs_real(kw, objs=()):
     import numpy as np
 
     out = {}
     for ov in kw:
-        if ov[0] == "pos":
+        if ov[0] == "ori":
+            out["orientation"] = ori_real(ov[1])
+        elif ov[0] == "parent":
+            out["parent"] = None if ov[1] < 0 else objs[ov[1]]
+        elif ov[0] == "children":
+            out["children"] = [arg(objs, i) for i in ov[1]]
+        elif ov[0] == "bad":
+            out[ov[1]] = "bad" if ov[1] != "orientation" else 3
+        elif ov[0] == "pos":
             out["position"] = ov[1] if len(ov[1]) > 1 else ov[1][0]
         elif ov[0] == "arr":
             out[ARR_ATTR[ov[1]]] = np.array(ov[2], dtype=float).reshape(-1, 3) if ov[1] == 6 and len(ov[2]) > 3 else list(ov[2])
@@ -964,10 +1028,53 @@ def attr_real_lines(h, rng=None, n_ops=0):
                 had_parent = orig._parent
                 op["lazy"] = vars(orig).get("_style") is None and bool(orig._style_kwargs)
                 op["untouched"] = vars(orig).get("_style") is None and not orig._style_kwargs
-                new = orig.copy(**copy_kwargs_real(op.get("kw", [])))
-                clones = preorder(new)
-                bad = copy_facts(orig, new, objs, clones)
-                if bad is None and orig._parent is not had_parent:
+                kwl = op.get("kw", [])
+                structural = any(ov[0] in ("parent", "children") for ov in kwl)
+                # the objects made by the deep copy are taken hold of right after `deepcopy(self)` (pre-order of the copy's own
+                # `_children` lists at that moment): a `children=` keyword may replace them later, and when a setter raises
+                # part-way they still exist — whether anything refers to them is what the dump then shows
+                import copy as _copymod
+                _real_deepcopy, depth, captured = _copymod.deepcopy, [0], []
+
+                def _hook(x, memo=None, _nil=[]):
+                    depth[0] += 1
+                    try:
+                        r = _real_deepcopy(x, memo, _nil)
+                    finally:
+                        depth[0] -= 1
+                    if depth[0] == 0 and not captured:
+                        captured.extend(preorder(r))
+                    return r
+
+                _copymod.deepcopy = _hook
+                try:
+                    new = orig.copy(**copy_kwargs_real(kwl, objs))
+                except Exception:
+                    op["raised"], op["first"], op["size"] = True, len(objs), len(captured)
+                    n_old = len(objs)
+                    # style state of the clones right after the label step (a clone has a style object iff its original had one;
+                    # the copied object gets one from the label step iff the original had a style object or style arguments)
+                    origs = preorder(orig) if not structural else []
+                    for ci, cobj in enumerate(captured):
+                        if ci == 0:
+                            before_style.append((op["untouched"], False))
+                        elif ci < len(origs):
+                            before_style.append((vars(origs[ci]).get("_style") is None, bool(vars(origs[ci]).get("_style_kwargs"))))
+                        else:
+                            before_style.append((vars(cobj).get("_style") is None, bool(vars(cobj).get("_style_kwargs"))))
+                    objs.extend(captured)
+                    old_ids = {id(x) for x in objs[:n_old]}
+                    op["halfbuilt_reachable"] = any((o_._parent is not None and id(o_._parent) not in old_ids) for o_ in objs[:n_old]) or \
+                        any(id(x) not in old_ids for o_ in objs[:n_old] for x in getattr(o_, "_children", []))
+                    raise
+                finally:
+                    _copymod.deepcopy = _real_deepcopy
+                clones = captured
+                if clones[0] is not new:
+                    bad = "copy() did not return the object made by deepcopy(self)"
+                if bad is None and not structural:
+                    bad = copy_facts(orig, new, objs, clones)
+                if bad is None and orig._parent is not had_parent and not structural:
                     bad = "copy() changed the parent of the original"
                 op["size"], op["first"], op["owned"] = len(clones), len(objs), had_parent is not None
                 objs.extend(clones)
@@ -978,6 +1085,8 @@ def attr_real_lines(h, rng=None, n_ops=0):
                 call_rotate(objs[op["x"]], {**op, "form": "rotate"})
             elif k == "asetpos":
                 objs[op["x"]].position = op["val"] if len(op["val"]) > 1 else op["val"][0]
+            elif k == "asetori":
+                objs[op["x"]].orientation = ori_real(op["val"])
             elif k == "asetarr":
                 v = op["val"]
                 setattr(objs[op["x"]], ARR_ATTR[op["slot"]], np.array(v, dtype=float).reshape(-1, 3) if op["slot"] == 6 and len(v) > 3 else list(v))
@@ -1012,8 +1121,9 @@ def attr_real_lines(h, rng=None, n_ops=0):
         except Exception as e:  # noqa: BLE001
             tag = "err"
             errs.append(f"{k}:Foreign:{type(e).__name__}")
-        if k in tree_ops:
-            hidden = {i: kw for i, (was_none, kw) in enumerate(before_style) if was_none and vars(objs[i]).get("_style") is not None}
+        if k in tree_ops or (k == "acopy" and op.get("raised")):
+            hidden = {i: kw for i, (was_none, kw) in enumerate(before_style) if was_none and vars(objs[i]).get("_style") is not None
+                      and not (k == "acopy" and i == op["o"] and not op["untouched"])}
             if lazy:
                 pending += [{"op": "arealise", "x": i} for i in hidden]
         elif k == "arealise":
@@ -1042,7 +1152,7 @@ def attr_real_lines(h, rng=None, n_ops=0):
 
 def run_attr_stream(ctx, n_hist, n_ops, want_model=True):
     stats = {"histories": 0, "ops": 0, "op_kinds": {}, "err_kinds": {}, "disagreements": 0, "copies": 0, "copies_with_overrides": 0,
-             "override_kinds": {}, "copies_of_owned_objects": 0, "copies_of_lazy_style_originals": 0, "copies_of_styleless_originals": 0, "copied_tree_sizes": {},
+             "override_kinds": {}, "copies_raising_part_way": 0, "raising_copies_leaving_a_reachable_half_built_copy": 0, "copies_of_owned_objects": 0, "copies_of_lazy_style_originals": 0, "copies_of_styleless_originals": 0, "copied_tree_sizes": {},
              "ops_after_copy_on_copy_side": 0, "ops_after_copy_on_original_side": 0, "ops_on_populated_collections": 0,
              "max_objects": 0, "containers_seen": 0, "lines_compared": 0, "tolerance": "exact (integer data, octahedral rotations)"}
     samples, failures = [], []
@@ -1067,6 +1177,8 @@ def run_attr_stream(ctx, n_hist, n_ops, want_model=True):
             stats["op_kinds"][kk] = stats["op_kinds"].get(kk, 0) + 1
             count_setter(stats, op)
             mentioned = [op[key] for key in ("c", "o", "p", "a", "b", "x") if key in op and isinstance(op[key], int)] + list(op.get("objs", []))
+            for ov in op.get("kw", []) if kk == "acopy" else []:
+                mentioned += ([ov[1]] if ov[0] == "parent" and ov[1] >= 0 else []) + (list(ov[1]) if ov[0] == "children" else [])
             if clone_ids.intersection(mentioned):
                 stats["ops_after_copy_on_copy_side"] += 1
             if orig_ids.intersection(mentioned):
@@ -1076,7 +1188,9 @@ def run_attr_stream(ctx, n_hist, n_ops, want_model=True):
                 stats["copies_with_overrides"] += int(bool(op.get("kw")))
                 for ov in op.get("kw", []):
                     stats["override_kinds"][ov[0]] = stats["override_kinds"].get(ov[0], 0) + 1
-                stats["copies_of_owned_objects"] += int(op["owned"])
+                stats["copies_raising_part_way"] += int(bool(op.get("raised")))
+                stats["raising_copies_leaving_a_reachable_half_built_copy"] += int(bool(op.get("halfbuilt_reachable")))
+                stats["copies_of_owned_objects"] += int(op.get("owned", False))
                 stats["copies_of_lazy_style_originals"] += int(op.get("lazy", False))
                 stats["copies_of_styleless_originals"] += int(op.get("untouched", False))
                 stats["copied_tree_sizes"][str(op["size"])] = stats["copied_tree_sizes"].get(str(op["size"]), 0) + 1
